@@ -23,6 +23,8 @@ var exprPool = []string{
 	"allowed[\"k\"] == 'v'", "x > 1.5e3 ? true : false", "size(x) % 2 == 0u", "x.y.z == null", "a-b <= -1", "x*y/2 - 0x1F > 0",
 	"type == model", "x  ==  y", "b\"ab\" != r'c'",
 	"low <= x &&\n  x <= high", "n in [\n    1,\n    2,\n  3]", "x == 1 ||\n\n      y == 2 ||\nz",
+	// the condition grammar admits an empty body
+	"",
 }
 
 func pick(rng *rand.Rand, xs []string) string { return xs[rng.Intn(len(xs))] }
